@@ -12,6 +12,7 @@ CONSTANTS
   Clamps <- L_Bool
   Actuations <- L_Bool
   DisSets <- L_DisAll
+  Gravs <- L_GX
   Variant = "doc"
 
 INVARIANT TypeOK
@@ -23,6 +24,7 @@ INVARIANT ActuationOffNoJointForce
 INVARIANT DisabledFrozen
 INVARIANT PowerBalance
 INVARIANT Undriven
+INVARIANT GravCompRouted
 INVARIANT ActInRange
 INVARIANT JointClampMinimal
 INVARIANT MuscleEnvelope
